@@ -3,7 +3,7 @@ CONSTANTS
   Shapes = {"unary", "cstream", "sstream", "bidi"}
   Points = {"running", "blockedRecv", "blockedFirstRecv", "blockedSend", "returned", "idleAfterSend"}
   Vias = {"local", "proxied"}
-  DetachBackend = FALSE
+  DetachBackend = TRUE
 INVARIANTS NoSpuriousDone
 PROPERTY CancelReleases
 CHECK_DEADLOCK FALSE
